@@ -116,7 +116,22 @@ def amplify(rng, data, a):
         if off + n <= len(m):
             m[off:off + n] = (v & ((1 << (8 * n)) - 1)).to_bytes(n, le)
     shoff = a['shoff']
-    target = rng.choice(['ph', 'ph', 'sh', 'str'])
+    target = rng.choice(['ph', 'ph', 'sh', 'str', 'nobits', 'size'])
+    if target in ('nobits', 'size') and a['sections']:
+        # a section (the name table half of the time) claims a huge size, as SHT_NOBITS or under its own type:
+        # nothing the battery enumerates may allocate or loop according to that claim
+        H = dict(sh_type=(4, 4), sh_size=(20, 4)) if c32 else dict(sh_type=(4, 4), sh_size=(32, 8))
+        n = len(a['sections'])
+        try:
+            strndx = int.from_bytes(m[F['e_shstrndx'][0]:F['e_shstrndx'][0] + 2], le)
+        except Exception:      # noqa: BLE001
+            strndx = 0
+        i = strndx if (rng.random() < 0.5 and 0 < strndx < n) else rng.randrange(n)
+        base = shoff + i * a['shentsize']
+        if target == 'nobits':
+            put(base + H['sh_type'][0], 4, 8)
+        put(base + H['sh_size'][0], H['sh_size'][1], rng.choice([0x10000000, 0x40000000, 0x7fffffff, 0xffffffff] + ([] if c32 else [1 << 40, (1 << 63) - 1])))
+        return bytes(m)
     big = rng.choice([0xffffffff, 0xffffffff, 0x7fffffff, 0x10000, 0xffff])
     if target == 'ph':
         put(*F['e_phnum'], 0xffff)
@@ -246,6 +261,13 @@ def battery(data):
     return steps
 
 
+def mem_budget(n):
+    """Python-heap bytes the enumeration battery may allocate beyond its starting point for an n-byte input: a small
+    multiple of the file size plus a constant for the parser's own objects (the unchanged library peaks far below it
+    on every seed; a claim-sized allocation of 256 MiB and more does not)"""
+    return 64 * n + (32 << 20)
+
+
 def _worker(args):
     idx, data = args
     sys.path.insert(0, REPO)
@@ -256,10 +278,18 @@ def _worker(args):
     signal.signal(signal.SIGALRM, _alarm)
     signal.alarm(TIME_LIMIT)
     t0 = time.time()
+    import tracemalloc
     try:
         try:
+            tracemalloc.start()
+            tracemalloc.reset_peak()
+            base = tracemalloc.get_traced_memory()[0]
             steps = battery(data)
-            res = ('ok', steps)
+            peak = tracemalloc.get_traced_memory()[1] - base
+            if peak > mem_budget(len(data)):
+                res = ('memory', peak)
+            else:
+                res = ('ok', steps)
         except _Timeout:
             res = ('timeout', 0)
         except MemoryError:
@@ -268,6 +298,10 @@ def _worker(args):
             res = ('raised', type(e).__name__)
     finally:
         signal.alarm(0)
+        try:
+            tracemalloc.stop()
+        except Exception:      # noqa: BLE001
+            pass
     return idx, res, time.time() - t0
 
 
@@ -295,7 +329,8 @@ def run_enum(ctx, seeds):
                         confirmed += 1
                 if confirmed == 2:
                     ctx.out.violation('property', 'enum', {'hex': hx(d)},
-                                      expect='terminates within %ds / %d MiB' % (TIME_LIMIT, MEM_LIMIT_MB), got={'limit': res[0]})
+                                      expect='terminates within %ds, address space %d MiB, heap 64*len + 32 MiB' % (TIME_LIMIT, MEM_LIMIT_MB),
+                                      got={'limit': res[0], 'peak': res[1]})
                     break
                 ctx.out.count('enum:limit-not-confirmed')
             elif res[0] == 'ok' and res[1] > 4 * len(d) + 64:
